@@ -3,6 +3,7 @@
   `optimize_type t` are atoms of `t`, up to the widening "string-like ⇒ str".
 -/
 import J2M.Proofs.Merge
+import J2M.Proofs.SplitWorklist
 namespace J2M
 
 /-- the value atoms of a type (`null`, `unknown` and the `opt` constructor are *not* value atoms) -/
@@ -250,8 +251,37 @@ def splitStep (reg : StrRegistry) (s : Split) (item : Ty) : Split :=
     | .dict x => { s with dicts := s.dicts ++ [x] }
     | x => { s with other := s.other ++ [x] }
 
-theorem splitMembers_eq (reg : StrRegistry) (ts : List Ty) :
-    splitMembers reg ts = ts.foldl (splitStep reg) {} := rfl
+theorem splitStep_eq_W : @splitStep = @SplitW.splitStep := rfl
+
+/-- the worklist split is the fold of `splitStep` over the flattened member list (`SplitW.flatL`: unions and
+    optional unions among the members are replaced by their members, an optional union also leaves a `Null`) -/
+theorem splitMembers_flat (reg : StrRegistry) (ts : List Ty) :
+    splitMembers reg ts = (SplitW.flatL ts).foldl (splitStep reg) {} :=
+  SplitW.splitMembers_eq_flat_foldl reg ts
+
+/-- without unions / optional unions among the members: the plain fold (the old `splitMembers_eq`) -/
+theorem splitMembers_plain (reg : StrRegistry) {ts : List Ty} (h : ∀ t ∈ ts, SplitW.hidden t = false) :
+    splitMembers reg ts = ts.foldl (splitStep reg) {} :=
+  SplitW.splitMembers_eq_foldl h
+
+theorem not_hidden_of_flags {t : Ty} (ho : t.isOpt = false) (hu : t.isUnion = false) : SplitW.hidden t = false := by
+  cases t <;> simp_all [SplitW.hidden, Ty.isOpt, Ty.isUnion]
+
+/-- invariants of the split: `I` is kept by every step on an item satisfying `R`, and `R` passes from the
+    members to what the worklist splices in -/
+theorem splitMembers_invariant {I : Split → Prop} {R : Ty → Prop} {reg : StrRegistry} {ts : List Ty}
+    (h0 : I {}) (hstep : ∀ s t, I s → R t → I (splitStep reg s t))
+    (hnull : R .null) (hu : ∀ ms, R (.union ms) → ∀ m ∈ ms, R m)
+    (hou : ∀ ms, R (.opt (.union ms)) → ∀ m ∈ ms, R m)
+    (h : ∀ t ∈ ts, R t) : I (splitMembers reg ts) := by
+  rw [splitMembers_flat]
+  have hf := SplitW.forall_flatL hnull hu hou h
+  generalize SplitW.flatL ts = l at hf
+  generalize ({} : Split) = s at h0
+  induction l generalizing s with
+  | nil => exact h0
+  | cons t l ih =>
+    exact ih (fun t' h' => hf t' (List.mem_cons_of_mem _ h')) _ (hstep s t h0 (hf t (List.mem_cons_self ..)))
 
 /-- all categories of a split have their atoms in `P`; the string category holds only `str`/pseudo-types -/
 structure SplitIn (P : Atom → Prop) (s : Split) : Prop where
@@ -317,14 +347,9 @@ theorem splitStep_in {P : Atom → Prop} {reg : StrRegistry} {s : Split} {item :
 
 theorem splitMembers_in {P : Atom → Prop} {reg : StrRegistry} {ts : List Ty}
     (h : ∀ t ∈ ts, t.atomsIn P) : SplitIn P (splitMembers reg ts) := by
-  rw [splitMembers_eq]
   have h0 : SplitIn P ({} : Split) := ⟨by simp, by simp, by simp, by simp, by simp⟩
-  generalize ({} : Split) = s at h0
-  induction ts generalizing s with
-  | nil => exact h0
-  | cons t ts ih =>
-    exact ih (fun t' h' => h t' (List.mem_cons_of_mem _ h')) _
-      (splitStep_in h0 (h t (List.mem_cons_self ..)))
+  exact splitMembers_invariant (R := Ty.atomsIn P) h0 (fun _ _ hs hi => splitStep_in hs hi) (atomsIn_null P)
+    (fun _ hm => atomsIn_union.1 hm) (fun _ hm => atomsIn_union.1 (atomsIn_opt.1 hm)) h
 
 /-! ### `optimize_type` / `_optimize_union` -/
 
